@@ -114,6 +114,38 @@ type vfSysRun struct {
 	pos  string
 	bad  bool
 	bare bool // ResetStartPoint ran, no setCheckpoint since
+	// ghost state of Props/C17Reach.lean (Ctl.names / Ctl.ids): every key name that was the current one or the one a cut
+	// rename wrote to, every id the source ever reported - recorded at every check, evaluated by op c17fresh
+	names, idsEver []string
+}
+
+func vfSysAddNew(xs []string, v string) []string {
+	if v == "" {
+		return xs
+	}
+	for _, x := range xs {
+		if x == v {
+			return xs
+		}
+	}
+	return append(xs, v)
+}
+
+// the freshness hypotheses of goodChecks_decide_good / bareChecks_decide_bare (a name / id never used does not occur on
+// the target; key, ids and the pending name are among those used) evaluated on the dump: Drive/C17Fresh.lean, theorems
+// Props/C17Fresh.lean namesOk_decides / idsOk_decides
+func (x *vfSysRun) fresh() {
+	x.names = vfSysAddNew(vfSysAddNew(x.names, x.c.key), x.c.pend)
+	x.idsEver = vfSysAddNew(vfSysAddNew(vfSysAddNew(x.idsEver, x.c.mas), x.c.sec), x.c.lab)
+	pend := "-"
+	if x.c.pend != "" {
+		pend = vfutil.HexS(x.c.pend)
+	}
+	st := checkpoint.VfDumpState(x.tg)
+	*x.tag++
+	x.s.Op(fmt.Sprintf("c17fresh %d %s %s %s %s %s %s %s", *x.tag, checkpoint.VfHexList(x.names), checkpoint.VfHexList(x.idsEver), vfutil.HexS(x.c.key),
+		vfutil.HexS(x.c.mas), vfutil.HexS(x.c.sec), pend, st.Encode()), fmt.Sprintf("#%d fresh ok", *x.tag))
+	x.s.Count("sys_fresh_checked")
 }
 
 // The log of the current target with the connections of the requests issued since position n0 renumbered:
@@ -173,6 +205,7 @@ func (x *vfSysRun) check(what string, life bool) {
 			x.bad = true
 			return
 		}
+		x.fresh()
 		st := checkpoint.VfDumpState(x.tg)
 		*x.tag++
 		x.s.Op(fmt.Sprintf("c17bare %d %s %s %s %s %s %s", *x.tag, vfutil.HexS(config.Version), vfutil.HexS(x.c.mas), vfutil.HexS(x.c.sec),
@@ -200,6 +233,7 @@ func (x *vfSysRun) check(what string, life bool) {
 		}
 	}
 	x.pos = p
+	x.fresh()
 	st := checkpoint.VfDumpState(x.tg)
 	pend := "-"
 	if x.c.pend != "" {
